@@ -3,6 +3,7 @@ use crate::checks::c01::{slice_b_labels, slice_b_polys};
 use crate::pmut::ProofMut;
 use crate::rec::Rec;
 use crate::sch::*;
+use crate::schemes::*;
 use crate::scope::*;
 use crate::source::*;
 use crate::tr::*;
@@ -298,6 +299,83 @@ pub fn ipa_padded_forgery(rec: &mut Rec) {
     }
 }
 
+/// Constructive forgery against a pairing batch verifier that weights two proofs equally: a false value
+/// at the first point together with opposite shifts `W_1 + aG`, `W_2 - aG`, `a = xi_1 * delta / (z_1 - z_2)`
+/// (`xi_1` the public opening challenge of the first group).  With independent verifier randomizers it
+/// fails; it is accepted exactly when the randomizer of the second proof equals that of the first.
+pub fn equal_weight_forgery<S: Sch<F = Fr381, Pt = Fr381>>(rec: &mut Rec, g_of: &dyn Fn(&VK<S>) -> <E381 as ark_ec::pairing::Pairing>::G1Affine, mk: &dyn Fn(&Pf<S>, <E381 as ark_ec::pairing::Pairing>::G1Affine) -> Pf<S>, w_of: &dyn Fn(&Pf<S>) -> <E381 as ark_ec::pairing::Pairing>::G1Affine) {
+    use crate::refm::{challenge, naive_mul};
+    use ark_ec::{AffineRepr, CurveGroup};
+    use ark_ff::Field;
+    let cfg = slice_b::<S>();
+    let keys = match build_keys::<S>(&cfg, rec.seed) {
+        Ok(k) => k,
+        Err(_) => return,
+    };
+    let labels = slice_b_labels::<S>(&cfg, rec.seed);
+    let shapes = S::shapes(&cfg, rec.seed);
+    let dense = shapes.iter().rev().find(|(n, _)| n.starts_with("dense")).unwrap().1.clone();
+    for hid in [None, Some(1usize)] {
+        for (dn, delta) in [("1", Fr381::one()), ("r1", crate::alpha::rho::<Fr381>(rec.seed, 1))] {
+            for three in [false, true] {
+                let id = format!("{}/forge/equal-weights/h={:?}/delta={}/labels={}", S::NAME, hid, dn, if three { 3 } else { 2 });
+                if !rec.take(&id) {
+                    continue;
+                }
+                rec.dim("scheme", S::NAME);
+                let c = match commit_set::<S>(&keys, vec![lp::<S>("p", dense.clone(), None, hid)], rec.seed, 0) {
+                    Ok(c) => c,
+                    Err(_) => continue,
+                };
+                // labels a (z1) and c (z2); with three labels also b (= z1) in the middle
+                let used: Vec<usize> = if three { vec![0, 1, 2] } else { vec![0, 2] };
+                let mut qs = ark_poly_commit::QuerySet::<Fr381>::new();
+                for l in used.iter() {
+                    qs.insert(("p".into(), (labels[*l].0.clone(), labels[*l].1)));
+                }
+                let b = match open_batch::<S>(&keys, &c, &[0], &qs, 0, rec.seed, 0) {
+                    Ok(b) => b,
+                    Err(_) => continue,
+                };
+                let list: Vec<Pf<S>> = b.proof.clone().into();
+                if list.len() != used.len() {
+                    continue;
+                }
+                let comms: Vec<&LCm<S>> = c.comms.iter().collect();
+                let g = g_of(&keys.vk);
+                let (z1, z2) = (labels[0].1, labels[2].1);
+                // every pair of groups with different points: (first, last) and, with three labels, (middle, last)
+                let pairs: Vec<(usize, usize, Fr381)> = if three { vec![(0, 2, z1), (1, 2, z1)] } else { vec![(0, 1, z1)] };
+                for (i, j, zi) in pairs {
+                    // xi of group i: one squeeze per polynomial and group before it
+                    let mut sp = sponge_pre::<Fr381>(0);
+                    let mut xi: Fr381 = challenge(&mut sp);
+                    for _ in 0..i {
+                        if S::NAME.starts_with("SON") {
+                            let _: Fr381 = challenge(&mut sp);
+                        }
+                        xi = challenge(&mut sp);
+                    }
+                    let a = xi * delta * (zi - z2).inverse().unwrap();
+                    let shift = naive_mul(&g, &a);
+                    let mut l2 = list.clone();
+                    l2[i] = mk(&list[i], (w_of(&list[i]).into_group() + shift).into_affine());
+                    l2[j] = mk(&list[j], (w_of(&list[j]).into_group() - shift).into_affine());
+                    let mut ev = b.evals.clone();
+                    *ev.get_mut(&("p".to_string(), zi)).unwrap() += delta;
+                    let bp: BPf<S> = l2.into();
+                    for vs in 0..2usize {
+                        rec.count_points(1);
+                        let d = check_batch::<S>(&keys, &comms, &qs, &ev, &bp, 0, rec.seed, vs);
+                        expect_reject(rec, &d, S::NAME, "batch_check", "forged:equal-weights-compensation", &id, format!("false value at group {} compensated in the proofs of groups {} and {} (verifier seed {}): {}", i, i, j, vs, d.short()));
+                    }
+                }
+                rec.sample(&format!("{}-forge", S::NAME), id.clone());
+            }
+        }
+    }
+}
+
 pub fn run(rec: &mut Rec) {
     let (w, ms) = if rec.thorough() { (Width::Wide, 3) } else { (Width::Medium, 2) };
     crate::for_each_scheme!(S, {
@@ -306,5 +384,7 @@ pub fn run(rec: &mut Rec) {
         mutate_batch::<S>(rec, ms);
     });
     ipa_padded_forgery(rec);
+    equal_weight_forgery::<SMar>(rec, &|vk| vk.vk.g, &|p, w| ark_poly_commit::kzg10::Proof { w, random_v: p.random_v }, &|p| p.w);
+    equal_weight_forgery::<SSon>(rec, &|vk| vk.g, &|p, w| ark_poly_commit::kzg10::Proof { w, random_v: p.random_v }, &|p| p.w);
     crate::special::c03_special(rec);
 }
